@@ -271,7 +271,7 @@ def explore_parallel(harness, bound, workers=None, split_depth=2, budget_s=None,
         r = seed % len(tasks)
         tasks = tasks[r:] + tasks[:r]
     with ctx.Pool(workers) as pool:
-        chunk = max(1, len(tasks) // (workers * 8))
+        chunk = max(1, min(8, len(tasks) // (workers * 64)))
         for st in pool.imap_unordered(_worker, [(t, bound, deadline) for t in tasks], chunksize=chunk):
             stats.merge(st)
     return stats
